@@ -12,7 +12,9 @@ UNIT = Unit(
     rules=["attrs", "fmtmsg"],
     describe="artifact.rs: the interface hash covers all six components (format_version, compiler_abi, package, exports, hir_interface, deps); "
              "new() stores it; validate()/validate_hash() accept only unaltered units of the current format version; loaders "
-             "(load_interface_from_paths, read_core) return Ok only for usable units of the requested package, Err otherwise (never panic)",
+             "(load_interface_from_paths, read_core) return Ok only for usable units of the requested package, Err otherwise (never panic); "
+             "CoreUnit::validate accepts EXACTLY the usable units; lemma_altered_core_ir_rejected (a two-unit lemma over that contract: a unit that differs "
+             "from an accepted one only in its Core IR is rejected) FAILS on the pinned tree — recorded as a known finding",
     trusted=["serde_json::to_vec / Sha256::digest / hex::encode are modelled as the uninterpreted deterministic functions json_of_view / sha_hex; "
              "collision-freedom and serde field coverage are assumed, not verified",
              "fs::read_to_string / serde_json::from_str return arbitrary values (that is the quantifier over artifact contents)"],
@@ -25,6 +27,7 @@ UNIT = Unit(
         Adt(file=A, kw="struct", name="CoreUnit", rewrites=[("crate::core::File", "CoreFile"), ("BTreeMap<String, String>", "DepMap")]),
         Raw(path="contracts/art.shim.rs"),
         Raw(path="contracts/art.spec.rs"),
+        Raw(path="contracts/art.lemmas.rs"),
         Fn(file=A, name="compute_hash", container="InterfaceUnit", ret="r",
            obligation="the hash is the digest of all six components",
            rewrites=[('serde_json::to_vec(&view).expect("InterfaceUnit hash view must serialize")', "serde_json_to_vec_expect(&view)"),
@@ -48,7 +51,7 @@ UNIT = Unit(
            obligation="validate() accepts only usable core units (current versions incl. the embedded interface's, matching package, unaltered hash, same deps)",
            rewrites=[("self.package == self.interface.package", "string_eq(&self.package, &self.interface.package)"),
                      ("self.deps == self.interface.deps", "self.deps.eq(&self.interface.deps)")],
-           contract="ensures r ==> self.usable(),"),
+           contract="ensures r == self.usable(),"),
         Fn(file=S, name="read_core", ret="r", rules=["attrs", "fmtmsg", "map_err_q"],
            obligation="read_core returns Ok only for a usable core unit; every failure is an Err",
            rewrites=[("path: &Path", "path: &PathBuf"), ("fs::read_to_string(path)", "fs_read_to_string(path)"),
